@@ -45,6 +45,7 @@ def compose_replace(ctx, rep, substitute):
         g = W.function("g", (), "Coefficient", number=3)
         h = W.function("h", (), "Coefficient", number=4)
         v = W.function("v", (), "Argument", number=0)
+        c = W.function("c", (), "Constant", number=5)
         P, S = um.m_product, um.m_sum
         EL, EM = W.ip.class_models["ExprList"], W.ip.class_models["ExprMapping"]
 
@@ -60,6 +61,12 @@ def compose_replace(ctx, rep, substitute):
             ("replace(derivative(w*w*h, w, v) + h*v, {h: w*g})", S(derivative(wwh, w, v), P(h, v)), {h: P(w, g)}),
             ("replace(derivative(w*w*h, w, v)*f, {f: w, h: f})   (simultaneous)", P(derivative(wwh, w, v), f), {f: w, h: f}),
             ("replace(w*w*h, {h: w*g})   (no pending derivative)", wwh, {h: P(w, g)}),
+            # forms: every kind of terminal a form can hold is substituted in every integral
+            ("replace(Form(c*f*dx), {c: g})   (a Constant in a form)", W.form([W.integral(P(c, f))]), {c: g}),
+            ("replace(Form(c*f*dx + c*c*w*ds), {c: h*h})   (a Constant in two integrals, compound image)", W.form([W.integral(P(c, f)), W.integral(P(P(c, c), w), "exterior_facet")]), {c: P(h, h)}),
+            ("replace(Form(c*f*dx), {c: g, f: w})   (a Constant and a Coefficient)", W.form([W.integral(P(c, f))]), {c: g, f: w}),
+            ("replace(Form(f*w*dx), {f: P(c, w)})   (a Coefficient by an expression with a Constant)", W.form([W.integral(P(f, w))]), {f: P(c, w)}),
+            ("replace(Form(f*w*dx), {c: g})   (the mapped Constant does not occur)", W.form([W.integral(P(f, w))]), {c: g}),
         ]
 
     W0 = world()
@@ -67,6 +74,30 @@ def compose_replace(ctx, rep, substitute):
     for k, desc in enumerate(descs):
         W = world()
         _, e, mp = cases(W)[k]
+        if isinstance(e, Obj) and e.kind == "Form":
+            # a form: integral by integral, in the same order
+            try:
+                out = W.ip.call_function(fn, [e, dict(mp)], {})
+            except LiftRaise as ex:
+                rep.violation("C21-deriv", fn, desc, f"{desc} fails: {ex.what[:140]}")
+                continue
+            n += 1
+            before = list(e.attrs["integrals"]())
+            after = list(out.attrs["integrals"]()) if isinstance(out, Obj) and "integrals" in out.attrs else None
+            if after is None or len(after) != len(before):
+                rep.violation("C21-deriv", fn, desc, f"{desc}: the result is not a form with the same integrals")
+                continue
+            bad = None
+            for a_, b_ in zip(after, before):
+                ok, how, wit = equal_T(as_T(a_.attrs["integrand"]()), substitute(as_T(b_.attrs["integrand"]()), mp), rng=ctx.rng, real_only=True, points=6)
+                if not ok or a_.attrs["integral_type"]() != b_.attrs["integral_type"]():
+                    bad = wit or "integral type changed"
+                    break
+            if bad:
+                rep.violation("C21-deriv", fn, desc, f"{desc}: an integrand of the result is not the integrand with the mapped terminals' values replaced: {bad}", witness=bad)
+            else:
+                rep.ok("C21-deriv", fn, f"{desc}: every integrand has the mapped terminals' values replaced")
+            continue
         want = substitute(as_T(e), mp)
         try:
             got = as_T(W.ip.call_function(fn, [e, dict(mp)], {}))
